@@ -352,14 +352,9 @@ class KFoldWiring(Contract):
             okn = arr.ndim == 1 and not is_sym(arr.shape[0]) and int(arr.shape[0]) == G and pa.parts == k
             out["partition_by_sum_gets_one_population_per_block_and_n_splits_parts"] = okn
             if okn:
-                clauses = []
-                for t in range(G):
-                    tag = sum_tag_of(arr.at(t))
-                    if tag is None:
-                        clauses.append(False)
-                        continue
-                    clauses.append(All(tag.n == n, Forall((n,), lambda p, tag=tag, t=t: iff(_as_bool(tag.term(p)), lab(p) == ids[t]))))
-                out["population_at_position_t_is_that_of_the_block_at_position_t_of_the_fold_order"] = All(*clauses)
+                from pyvc.sums import count_equal
+
+                out["population_at_position_t_is_that_of_the_block_at_position_t_of_the_fold_order"] = and_(*[arr.at(t) == count_equal(labels, ids[t]) for t in range(G)])
         return out
 
 
